@@ -187,6 +187,8 @@ def resolve(arg, mk_synced=None):
             return iter([resolve(a, mk_synced) for a in arg[1]])
         if tag == "#synced":
             return mk_synced(resolve(arg[1], mk_synced))
+        if tag == "#foreign":  # a synced collection of ANOTHER class family, bound to its own resource
+            return mk_synced(resolve(arg[1], mk_synced), foreign=True)
         if tag == "#bad":
             return bad_value(arg[1])
         if tag == "#dictk":  # dict with arbitrary (possibly non-string) keys: list of pairs
@@ -209,7 +211,7 @@ def ref_value(arg):
             return [ref_value(a) for a in arg[1]]
         if tag == "#bytes":
             return list(arg[1])
-        if tag == "#synced":
+        if tag in ("#synced", "#foreign"):
             return ref_value(arg[1])
         if tag == "#dictk":
             def hk(k):
